@@ -6,7 +6,7 @@ From Coq Require Import List String NArith ZArith Bool.
 From SV Require Import Bin.LE Bin.Struct Bin.StructProofs Bin.RLE Bin.RLEProofs Bin.FindInsert Bin.FindInsertProofs
   Fmt.BspFormatsSpec Fmt.BspFormatsProofs Fmt.BspVisRow Fmt.BspVisRowProofs Fmt.BspTexStrings Fmt.BspTexStringsProofs
   Fmt.BspRecords Fmt.BspRecordsProofs Fmt.VmfText Fmt.BspEntLump Fmt.BspEntLumpProofs Fmt.BspDedup Fmt.BspDedupProofs Fmt.BspFlagSplit Fmt.BspFlagSplitProofs
-  Fmt.BspOverlayRec Fmt.BspOverlayRecProofs.
+  Fmt.BspOverlayRec Fmt.BspOverlayRecProofs Fmt.BspWorklist Fmt.BspWorklistProofs.
 Import ListNotations.
 
 (** * struct: unpack inverts pack for every format and every fitting record *)
@@ -287,3 +287,53 @@ Theorem c11_overlay_block_roundtrip : forall reader head tail count wmax rmax ff
        exists bs, pack (h ++ f ++ t) (map field wh ++ map VInt faces ++ map field wt) = Some bs /\
                   List.length bs = calcsize r /\ unpack r bs = Some (overlay_values field rh rt faces count)).
 Proof. exact overlay_block_roundtrip. Qed.
+
+(** * Round 4: loops that serialise an index table while references are turned into indexes of that same table *)
+(** [_lmp_write_nodes]: [for node in nodes] over the LIVE list, the body appends the children it does not know yet.  When the
+    loop ends there is exactly one record per table entry (record [i] is the record of object [i]), no object has two
+    indexes, the listed roots kept their positions, every index stored in a record resolves - the way the reader resolves
+    it - to the object referred to, and the table holds exactly the objects reachable from the roots. *)
+Theorem c11_worklist_closure : forall kids roots fuel s s' out, wl_inv s -> items s = roots -> wl_live kids fuel s 0 [] = (s', out, true) ->
+  map fst out = items s' /\ NoDup (items s') /\ (exists ext, items s' = roots ++ ext) /\
+  (forall i o idx, nth_error out i = Some (o, idx) ->
+     nth_error (items s') i = Some o /\ Forall2 (fun k j => resolve out j = Some k) (kids o) idx) /\
+  (forall o, In o (items s') <-> reach kids roots o).
+Proof. exact wl_live_closure. Qed.
+(** ... and it does end: if the reachable objects are among finitely many ([U]), [S |U|] steps suffice.  ([find_or_insert]
+    over a list without repetitions satisfies [wl_inv].) *)
+Theorem c11_worklist_total : forall kids roots U, (forall o, reach kids roots o -> In o U) ->
+  forall s, wl_inv s -> items s = roots ->
+  exists s' out, wl_live kids (S (List.length U)) s 0 [] = (s', out, true) /\
+    map fst out = items s' /\ NoDup (items s') /\ (exists ext, items s' = roots ++ ext) /\
+    (forall i o idx, nth_error out i = Some (o, idx) ->
+       nth_error (items s') i = Some o /\ Forall2 (fun k j => resolve out j = Some k) (kids o) idx) /\
+    (forall o, In o (items s') <-> reach kids roots o).
+Proof. exact wl_live_total. Qed.
+Theorem c11_worklist_init : forall l, NoDup l -> wl_inv (fi_init l).
+Proof. exact fi_init_wl_inv. Qed.
+(** The snapshot loop ([for node in list(nodes)]): object 0 refers to the unlisted object 1; index 1 is stored, record 1 is
+    never written. *)
+Theorem c11_worklist_snapshot_refuted :
+  let '(s', out) := wl_snap kids01 [0%N] (fi_init [0%N]) [] in
+  items s' = [0%N; 1%N] /\ out = [(0%N, [1%nat])] /\ resolve out 1%nat = None /\
+  wl_live kids01 3%nat (fi_init [0%N]) 0 [] = (s', [(0%N, [1%nat]); (1%N, [])], true).
+Proof. exact wl_snapshot_refuted. Qed.
+(** Generic over the loop shapes read from the source: an entry that passes [wl_entry_ok] (nothing added after the loop;
+    live iteration, or a snapshot whose body adds nothing) denotes a loop after which every table entry has its record at
+    its own index and every reference turned into an index of this table resolves to the object referred to. *)
+Theorem c11_index_table_loop_closure : forall fn tbl k inside after kids fuel s s' out,
+  wl_entry_ok (fn, tbl, k, inside, after) = true -> wl_inv s -> wl_exec k inside kids fuel s = (s', out, true) ->
+  map fst out = items s' /\ NoDup (items s') /\ (exists ext, items s' = items s ++ ext) /\
+  forall i o idx, nth_error out i = Some (o, idx) ->
+    nth_error (items s') i = Some o /\ Forall2 (fun r j => resolve out j = Some r) (if inside then kids o else []) idx.
+Proof. exact wl_entry_closure. Qed.
+Theorem c11_index_table_loop_snapshot_refuted :
+  wl_entry_ok (""%string, ""%string, ISnapshot, true, false) = false /\
+  let '(s', out, _) := wl_exec ISnapshot true kids01 3%nat (fi_init [0%N]) in
+  (List.length out = 1 /\ List.length (items s') = 2)%nat.
+Proof. exact wl_entry_snapshot_with_adds_refuted. Qed.
+(** save() rebuilds the lumps in the order of LUMP_REBUILD_ORDER: every writer that appends to the list of another view
+    runs strictly before the writer of that view. *)
+Theorem c11_rebuild_order_sound : forall order edges, order_ok order edges = true ->
+  forall a b, In (a, b) edges -> exists i j, pos_of a order = Some i /\ pos_of b order = Some j /\ (i < j)%nat.
+Proof. exact order_ok_sound. Qed.
